@@ -236,7 +236,7 @@ def run(tier: str) -> int:
     rep = harness.Report(PROP, tier, "model_checking")
     rep.assumptions = ASSUMPTIONS
     M = 96 if tier == "thorough" else 24
-    results = harness.pmap(task, list(range(1, M + 1)))
+    results = harness.pmap(task, list(range(1, M + 1)), placeholder=lambda it, st, d: dict(m=it, status=st, problems=[], paths=0, queries=0))
     for r in results:
         for pr in r["problems"]:
             path = e1.save_replay(PROP, dict(property=PROP, kind="share_link", m=r["m"], problem=pr))
